@@ -1,4 +1,4 @@
-"""C08 -- source-annotated syntax tree (VGC + RCA rules R08.1-R08.7)."""
+"""C08 -- source-annotated syntax tree (VGC + RCA rules R08.1-R08.8)."""
 from __future__ import annotations
 
 import ast
@@ -20,7 +20,7 @@ EXPLANATION = (
     "reported) in rope's number pattern.  R08.5: every tokenizer string prefix followed by a string body is a word of "
     "rope's string/f-string patterns.  R08.6: a first-match search over the walker's stack of open nodes iterates innermost-first "
     "(reverse of the push order).  R08.7: the parameter-list layout pairs defaults with exactly posonlyargs + args (padded idiom "
-    "included) and kw_defaults with kwonlyargs.  Token search, parenthesis attribution and write-back equality are not decided."
+    "included) and kw_defaults with kwonlyargs.  R08.8 (=R14.6): the line table that turns the interpreter's line numbers into offsets breaks lines at '\\n' only.  Token search, parenthesis attribution and write-back equality are not decided."
 )
 ASSUMPTIONS = [
     "language inclusion is decided over ASCII plus representatives of the non-ASCII \\w/\\d/\\s classes",
@@ -63,6 +63,10 @@ def check(ctx, res) -> None:
     _check_main(ctx, res)
     _stack_rule(ctx, res)
     _alignment_rule(ctx, res)
+    # R08.8 (=R14.6): the walker converts the interpreter's line numbers to offsets through the line table
+    from .c14 import line_table_rule
+
+    line_table_rule(ctx, res, "R08.8")
 
 
 def _check_main(ctx, res) -> None:
